@@ -66,6 +66,8 @@ static bool plant(Plant &p, int cls, Rng &r) {
     // most probe-based classes append " <probe>" at the end of block b
     auto probe = [&](const ustr &txt, int code, std::function<void(DBlock &)> expect) {
         ustr ins = (r.chance(1, 2) ? U("\n") : U(" ")) + txt;
+        // sometimes the defective construct is the very last thing in the input (nothing, not even a line terminator, follows)
+        if (b + 1 == (int) p.doc.blocks.size() && r.chance(1, 4)) { p.text.erase(bend); while (!ins.empty() && ins.back() == '\n') ins.pop_back(); g_stats.inc("c12.defect_at_eof"); }
         insert_at(bend, ins); p.code = code; p.defect_off = bend + 1; p.next_off = next_token_start(T, 0, 0);   // fixed below
         // next token after the probe: the first non-ws token of the original text at or after bend
         size_t nxt = p.text.size(); for (auto &t : T) if (t.kind != T_WS && t.start >= bend) { nxt = t.start + ins.size(); break; }
@@ -148,7 +150,17 @@ static bool plant(Plant &p, int cls, Rng &r) {
         }
         case DF_NULL_LOOP: probe(U("loop_"), CIF_NULL_LOOP, [](DBlock &) {}); return true;
         case DF_EMPTY_LOOP: probe(U("loop_ _empty_probe1 _empty_probe2"), CIF_EMPTY_LOOP, [](DBlock &) {}); p.accept_empty_loop_absent = true; return true;
-        case DF_MISSING_ENDQUOTE: probe(U("_q_probe 'abc def\n"), CIF_MISSING_ENDQUOTE, [&](DBlock &blk) { add_scalar(blk, "_q_probe", MValue::chr(U("abc def"), true)); }); return true;
+        case DF_MISSING_ENDQUOTE: {
+            ustr q = r.chance(1, 2) ? U("'") : U("\"");
+            if (r.chance(1, 3)) {
+                // the unterminated string is the very last thing in the input: no line terminator follows it
+                b = (int) p.doc.blocks.size() - 1; size_t be = block_end_off(T, b);
+                p.text.erase(be); ustr ins = U("\n_q_probe ") + q + U("abc def");
+                p.text += ins; p.code = CIF_MISSING_ENDQUOTE; p.defect_off = be + 1; p.next_off = p.text.size();
+                add_scalar(p.doc.blocks[(size_t) b], "_q_probe", MValue::chr(U("abc def"), true)); p.where = "doc_end_no_eol"; return true;
+            }
+            probe(U("_q_probe ") + q + U("abc def\n"), CIF_MISSING_ENDQUOTE, [&](DBlock &blk) { add_scalar(blk, "_q_probe", MValue::chr(U("abc def"), true)); }); return true;
+        }
         case DF_UNCLOSED_TEXT: case DF_UNCLOSED_TRIPLE: {
             if (cls == DF_UNCLOSED_TRIPLE && !v2) return false;
             b = (int) p.doc.blocks.size() - 1;
@@ -288,6 +300,7 @@ struct Acceptor {
         std::string ctx; for (size_t i = (pos > 4 ? pos - 4 : 0); i < obs.size() && i < pos + 3; ++i) ctx += strprintf("%s[%d:%s] ", i == pos ? "->" : "", obs[i].kind, obs[i].what.substr(0, 40).c_str());
         throw Violation("C15.order", mode + ":" + sig, msg + " (" + mode + " mode; events around: " + ctx + ")", -1);
     }
+    bool keep_cut_packets = false, saw_item_cut = false;   // see walk_loop: the two admissible readings of SKIP_SIBLINGS from a looped item
     Flow flow(int r) { if (r == CIF_TRAVERSE_CONTINUE) return F_GO; if (r == CIF_TRAVERSE_SKIP_CURRENT) return F_SKIP_CUR; if (r == CIF_TRAVERSE_SKIP_SIBLINGS) return F_SKIP_SIB; stopped = true; rc = r > 0 ? r : CIF_OK; return F_STOP; }
     // handler event of kind hk (0..10). Returns the flow directive; *called tells whether an optional event occurred.
     Flow H(int hk, int evkind, const std::string &what, bool check_what, bool optional = false, bool *called = NULL) {
@@ -323,7 +336,14 @@ struct Acceptor {
             Flow ps = H(8, EV_PACKET_START, "", false);
             if (ps == F_STOP) { out.push_back(sl); return F_STOP; }
             if (ps != F_GO) { bool called; Flow e = H(9, EV_PACKET_END, "", false, true, &called); if (called) { if (e == F_STOP) { out.push_back(sl); return F_STOP; } if (e == F_SKIP_SIB) bypass = true; } if (ps == F_SKIP_SIB) bypass = true; if (bypass) break; continue; }
-            for (size_t k = 0; k < row.size(); ++k) { Flow it = H(10, EV_ITEM, u8(l.names[k]) + "=" + canon(ev_value(row[k], version)), true); if (it == F_STOP) { out.push_back(sl); return F_STOP; } if (it != F_GO) fail("unsupported", "harness: skip response for a looped item is not generated"); }
+            // Item of a loop packet: SKIP_CURRENT has nothing to bypass (an item has no children); SKIP_SIBLINGS bypasses the
+            // remaining items of this packet -- no callbacks for them, a packet_end callback may or may not follow, and the
+            // packet cannot be stored whole: it is dropped (variant A, what the parser's documentation of 'handler' suggests)
+            // or stored with the bypassed items unknown (variant B, the other reading of "everything else is stored").
+            bool cut = false;
+            for (size_t k = 0; k < row.size(); ++k) { Flow it = H(10, EV_ITEM, u8(l.names[k]) + "=" + canon(ev_value(row[k], version)), true); if (it == F_STOP) { out.push_back(sl); return F_STOP; }
+                if (it == F_SKIP_SIB) { cut = true; saw_item_cut = true; g_stats.inc("c15.looped_item_skip_siblings"); if (keep_cut_packets) { std::vector<MValue> part = row; for (size_t q = k; q < part.size(); ++q) part[q] = MValue::unk(); sl.packets.push_back(part); } break; } }
+            if (cut) { bool called; Flow e = H(9, EV_PACKET_END, "", false, true, &called); if (called) { if (e == F_STOP) { out.push_back(sl); return F_STOP; } if (e == F_SKIP_SIB) { bypass = true; break; } } continue; }
             Flow pe = H(9, EV_PACKET_END, "", false);
             if (pe == F_STOP) { out.push_back(sl); return F_STOP; }
             if (pe == F_GO) sl.packets.push_back(row);
@@ -411,8 +431,8 @@ RunResult run_c15(const RunSpec &spec) {
     for (int k = 0; k < 11; ++k) {
         if (r.chance(1, 8)) continue;                                  // no handler for this kind
         if (all_continue) { o.hp.resp[k].push_back(CIF_TRAVERSE_CONTINUE); continue; }
-        bool allow_skip = !(k == 10 && loops);                         // skip responses of looped items are unspecified
-        o.hp.resp[k] = gen_table(r, allow_skip, true);
+        (void) loops;
+        o.hp.resp[k] = gen_table(r, true, true);
     }
     o.hp.reenter = r.chance(1, 2);
     std::vector<unsigned char> bytes = lay.utf8();
@@ -445,6 +465,12 @@ RunResult run_c15(const RunSpec &spec) {
                 MCif got = dump_cif(out.cif, prop), want = expected_model(a.stored);
                 DumpOpts dop; dop.drop_empty_loops = true;
                 std::string x = canon(want, dop), y = canon(got, dop);
+                if (x != y && a.saw_item_cut) {
+                    // second admissible reading for packets cut short by SKIP_SIBLINGS from one of their items
+                    Acceptor b2; b2.obs = a.obs; b2.hp = &om.hp; memset(b2.ord, 0, sizeof b2.ord); b2.syn = a.syn; b2.storing = true; b2.mode = a.mode; b2.keep_cut_packets = true; b2.walk_cif(doc);
+                    std::string x2 = canon(expected_model(b2.stored), dop);
+                    if (x2 == y) { g_stats.inc("c15.cut_packet_kept"); x = y; }
+                }
                 if (x != y) DVIOLATE("stored", all_continue ? "all_continue" : "filtered", "stored content differs from what the handler program lets through: %s", first_diff(x, y).c_str());
             }
             // whitespace / syntax callbacks arrive in document order
